@@ -8,7 +8,8 @@ import Driver.Util
       orig  <ids> <intents> <it>   ORIGINAL remove-by-intent loop on the list of (id,intent)
       space                  all code points < 0x3100 for which the model's `isPySpace` holds
       block <enc> <endian> <datatype> <dims> <ord> <text|_> <table>*     read_data_block
-      wblock <itemsize> <big 0|1> <col 0|1> <dims> <bits>   bytes `_data_tag_element` hands to zlib/base64 (hex)
+      wblock <itemsize> <machine big 0|1> <memory big 0|1> <col 0|1> <dims> <hex memory bytes>
+                             bytes `_data_tag_element` hands to zlib/base64 (hex)
       parse <event|table>*   the parser event machine
     text  = code points in hex joined by '.', '-' = empty
     event = S~tag~k=text~k=text… | C~text | E~tag
@@ -222,14 +223,16 @@ def handle : List String → String
       | .ok a => "ok " ++ showArr a
       | .error _ => "ERR"
     | _, _, _, _, _, _, _ => "bad-op"
-  | ["wblock", w, big, col, dims, bits] =>
-    match w.toNat?, big.toNat?, col.toNat?, parseNatList? dims, parseNatList? bits with
-    | some w, some big, some col, some dims, some bits =>
-      if bits.length ≠ prod dims then "bad-op"
+  | ["wblock", w, big, memBig, col, dims, mem] =>
+    match w.toNat?, big.toNat?, memBig.toNat?, col.toNat?, parseNatList? dims, parseBytes? mem with
+    | some w, some big, some memBig, some col, some dims, some mem =>
+      if mem.length ≠ w * prod dims then "bad-op"
       else
-        let bs := toBytes (big == 1) w (toOrder (col == 1) dims bits)
-        if bs.isEmpty then "-" else String.join (bs.map (fun b => String.ofList [hexDigit (b / 16), hexDigit (b % 16)]))
-    | _, _, _, _, _ => "bad-op"
+        match writerBytes (big == 1) w (col == 1) dims (memBig == 1) mem with
+        | .ok bs =>
+          if bs.isEmpty then "-" else String.join (bs.map (fun b => String.ofList [hexDigit (b / 16), hexDigit (b % 16)]))
+        | .error _ => "ERR"
+    | _, _, _, _, _, _ => "bad-op"
   | "parse" :: toks =>
     match splitEvents toks {} [] with
     | some (T, es) =>
